@@ -285,7 +285,17 @@ def f43():
     return True if C(F(1, 2)) == A(F(1, 2)) + B(F(1, 2)) else C(F(1, 2))
 
 
-for name, fn in (("F36", f36), ("F37", f37), ("F38", f38), ("F39", f39), ("F40", f40), ("F41", f41), ("F42", f42), ("F43", f43)):
+def f44():
+    """C03: insertion of an iterator of nodes outside the interval was accepted before the repair"""
+    kv = KnotVector([0, 0, 1, 1])
+    try:
+        kv.insert(iter([2, 2]))
+    except ValueError:
+        return True if tuple(kv) == (0, 0, 1, 1) else tuple(kv)
+    return f"accepted: {tuple(kv)}"
+
+
+for name, fn in (("F36", f36), ("F37", f37), ("F38", f38), ("F39", f39), ("F40", f40), ("F41", f41), ("F42", f42), ("F43", f43), ("F44", f44)):
     if len(sys.argv) > 1 and name not in sys.argv[1:]:
         continue
     t(name, fn)
